@@ -219,6 +219,10 @@ def once_and_advance(ctx, rets, where):
         if not disp:
             if incs:
                 bad_once = bad_once or "count incremented on a path that never dispatches"
+            if not is_err(o) and ripw:
+                # a step that reports success has executed its instruction: RIP was advanced past it, so it must have been
+                # dispatched (a hook that stops execution before the instruction still lets the step finish the instruction)
+                bad_once = bad_once or "a step returns Ok after advancing RIP without having dispatched the instruction"
             continue
         n += 1
         if len(disp) != 1:
